@@ -80,6 +80,7 @@ type End struct {
 	Closed     bool // closed locally
 	rdl, wdl   time.Time
 
+	Opaque bool // journal lengths only (content differs legitimately between executions)
 	Auto   bool // transparent link: ops complete eagerly, not journaled
 	Stream bool // deliveries towards this end may split/coalesce write boundaries
 	Owned  bool // scheduler-owned sink (no goroutine behind it)
@@ -401,7 +402,7 @@ func (e *End) Send(b []byte) {
 		s.autoProgress()
 		return
 	}
-	s.J.AddData(s, "send", e.Name, cp)
+	s.J.AddData(s, "send", e, cp)
 }
 
 // Shut closes an owned end gracefully (FIN after in-flight data).
@@ -484,6 +485,9 @@ func opKey(o *op) string {
 	case opCall:
 		return "call " + o.key
 	case opWrite:
+		if o.e.Opaque {
+			return "write " + o.e.Name
+		}
 		h := fnv.New32a()
 		h.Write(o.data)
 		return fmt.Sprintf("write %s %d %08x", o.e.Name, len(o.data), h.Sum32())
@@ -909,7 +913,7 @@ func (s *Sim) grantWrite(o *op) {
 	e.Peer.inflight = append(e.Peer.inflight, seg{o.data[o.off:]})
 	e.BytesOut += len(o.data) - o.off
 	e.WritesOut++
-	s.J.AddData(s, "write", e.Name, o.data[o.off:])
+	s.J.AddData(s, "write", e, o.data[o.off:])
 	o.off = len(o.data)
 	o.n = len(o.data)
 	s.finish(o)
@@ -940,7 +944,7 @@ func (s *Sim) deliver(e *End, o *op) {
 	} else {
 		b, _ = e.take(max, true)
 	}
-	s.J.AddData(s, "deliver", e.Name, b)
+	s.J.AddData(s, "deliver", e, b)
 	if o != nil {
 		o.data, o.n = b, len(b)
 		s.finish(o)
